@@ -4,6 +4,10 @@ from ._cache import REAL, STUB, ASSUMPTIONS, shrink, run_case  # noqa
 
 PROPERTY = 'C01'
 LEVEL = 'exploration'
+LEVEL_TEXT = 'Seeded search over programs x loop life-cycle histories x line-level schedules of the real threadsafe_async_cache on 2-4 virtual-time loops; the overlap invariant is evaluated at every entry of the wrapped function and the history afterwards. Sampling gives evidence, not proof; the windows the property is about (unlocked probe vs. locked re-probe, run_until_complete return vs. shutdown) are pre-emption points like any other line.'
+LEVEL_NOTE = "Trusted: CPython 3.12.1 asyncio and threading primitives are atomic between two line events of aiuti code; SimLoop's fake selector/clock; harness-owned wrapped function as the observation point."
+TECHNIQUE = 'deterministic simulation: seeded thread scheduler + virtual-time event loops + loop life-cycle fault injection, in-run invariant'
+DESIGN_REF = '3.1'
 CHUNK = 250
 RULE = ('each run = one seeded program (2-4 threads x own SimLoop, 1-3 callers per thread over 1-2 keys, '
         'arrival/duration grid incl. zero-duration and 70 s, life-cycle histories: await all / return early then '
